@@ -361,4 +361,4 @@ Proof.
 Qed.
 
 Lemma ok_implies_csets c : Case_C03.ok c = true -> ok_csets c = true.
-Proof. unfold Case_C03.ok. intros H. apply andb_prop in H as [H _]. exact H. Qed.
+Proof. unfold Case_C03.ok. intros H. apply andb_prop in H as [H _]. apply andb_prop in H as [H _]. apply andb_prop in H as [H _]. exact H. Qed.
